@@ -1,0 +1,287 @@
+//go:build verif
+
+// Contracts for package encoding, checked by /verif (govc). Comment-only: this file adds no code.
+// Integers of fixed width are 64/8-bit vectors, float64 is IEEE binary64 (SMT FloatingPoint), `int` is
+// a mathematical integer wrapped to 64 bits.
+
+package encoding
+
+//@ mode ints=bv floats=ieee
+
+//@ func NewFlag
+//@   inline
+//@ func newSubFlag
+//@   inline
+//@ func Flag.Type
+//@   inline
+//@ func Flag.SubFlag
+//@   inline
+
+// ---------------------------------------------------------------- flags
+
+//@ func EncodeFlag
+//@   serves C18 C07
+//@   requires b != nil
+//@   ensures len(*b) == old(len(*b)) + 1
+//@   ensures prefix: forall j int :: 0 <= j && j < old(len(*b)) ==> (*b)[j] == old((*b)[j])
+//@   ensures (*b)[old(len(*b))] == f.byte
+//@   ensures alias: arr(*b) == old(arr(*b)) || fresh(arr(*b))
+//@   modifies *b, arr(*b)
+
+//@ func DecodeFlag
+//@   serves C18 C08
+//@   requires b != nil
+//@   ensures eof: old(len(*b)) == 0 ==> result1 == io.EOF && *b == old(*b)
+//@   ensures ok: old(len(*b)) > 0 ==> result1 == nil && result.byte == old((*b)[0]) && len(*b) == old(len(*b)) - 1
+//@   ensures adv: old(len(*b)) > 0 ==> arr(*b) == old(arr(*b)) && off(*b) == old(off(*b)) + 1
+//@   modifies *b
+
+// ---------------------------------------------------------------- uvarint64: specification functions
+// (written from the doc comment of EncodeUvarint64: 7 bits at a time, least significant first,
+//  continuation bit 0x80, at most 9 bytes, the 9th carries 8 bits)
+
+//@ fun UvarLen(v uint64) int := v < 0x80 ? 1 : (v < 0x4000 ? 2 : (v < 0x200000 ? 3 : (v < 0x10000000 ? 4 : (v < 0x800000000 ? 5 : (v < 0x40000000000 ? 6 : (v < 0x2000000000000 ? 7 : (v < 0x100000000000000 ? 8 : (9))))))))
+//@ fun UvarByte(v uint64, i int) byte := i + 1 < UvarLen(v) ? (byte(v >> (7*i)) | 0x80) : byte(v >> (7*i))
+//@ fun DLen(s []byte) int := len(s) > 0 && s[0] < 0x80 ? 1 : (len(s) > 1 && s[1] < 0x80 ? 2 : (len(s) > 2 && s[2] < 0x80 ? 3 : (len(s) > 3 && s[3] < 0x80 ? 4 : (len(s) > 4 && s[4] < 0x80 ? 5 : (len(s) > 5 && s[5] < 0x80 ? 6 : (len(s) > 6 && s[6] < 0x80 ? 7 : (len(s) > 7 && s[7] < 0x80 ? 8 : (len(s) > 8 ? 9 : 0))))))))
+//@ fun Grp(s []byte, i int) uint64 := uint64(s[i] & 0x7F) << (7*i)
+//@ fun Last(s []byte, i int) uint64 := uint64(s[i]) << (7*i)
+//@ fun DVal(s []byte) uint64 := DLen(s) == 1 ? (Last(s,0)) : (DLen(s) == 2 ? (Grp(s,0) | Last(s,1)) : (DLen(s) == 3 ? (Grp(s,0) | Grp(s,1) | Last(s,2)) : (DLen(s) == 4 ? (Grp(s,0) | Grp(s,1) | Grp(s,2) | Last(s,3)) : (DLen(s) == 5 ? (Grp(s,0) | Grp(s,1) | Grp(s,2) | Grp(s,3) | Last(s,4)) : (DLen(s) == 6 ? (Grp(s,0) | Grp(s,1) | Grp(s,2) | Grp(s,3) | Grp(s,4) | Last(s,5)) : (DLen(s) == 7 ? (Grp(s,0) | Grp(s,1) | Grp(s,2) | Grp(s,3) | Grp(s,4) | Grp(s,5) | Last(s,6)) : (DLen(s) == 8 ? (Grp(s,0) | Grp(s,1) | Grp(s,2) | Grp(s,3) | Grp(s,4) | Grp(s,5) | Grp(s,6) | Last(s,7)) : (Grp(s,0) | Grp(s,1) | Grp(s,2) | Grp(s,3) | Grp(s,4) | Grp(s,5) | Grp(s,6) | Grp(s,7) | Last(s,8)))))))))
+
+//@ func EncodeUvarint64
+//@   serves C18 C06 C07
+//@   requires b != nil
+//@   ensures size: len(*b) == old(len(*b)) + UvarLen(v)
+//@   ensures prefix: forall j int :: 0 <= j && j < old(len(*b)) ==> (*b)[j] == old((*b)[j])
+//@   ensures byte0: UvarLen(v) > 0 ==> (*b)[old(len(*b)) + 0] == UvarByte(v, 0)
+//@   ensures byte1: UvarLen(v) > 1 ==> (*b)[old(len(*b)) + 1] == UvarByte(v, 1)
+//@   ensures byte2: UvarLen(v) > 2 ==> (*b)[old(len(*b)) + 2] == UvarByte(v, 2)
+//@   ensures byte3: UvarLen(v) > 3 ==> (*b)[old(len(*b)) + 3] == UvarByte(v, 3)
+//@   ensures byte4: UvarLen(v) > 4 ==> (*b)[old(len(*b)) + 4] == UvarByte(v, 4)
+//@   ensures byte5: UvarLen(v) > 5 ==> (*b)[old(len(*b)) + 5] == UvarByte(v, 5)
+//@   ensures byte6: UvarLen(v) > 6 ==> (*b)[old(len(*b)) + 6] == UvarByte(v, 6)
+//@   ensures byte7: UvarLen(v) > 7 ==> (*b)[old(len(*b)) + 7] == UvarByte(v, 7)
+//@   ensures byte8: UvarLen(v) > 8 ==> (*b)[old(len(*b)) + 8] == UvarByte(v, 8)
+//@   ensures alias: arr(*b) == old(arr(*b)) || fresh(arr(*b))
+//@   modifies *b, arr(*b)
+//@   loop 1 unroll 8
+
+//@ func DecodeUvarint64
+//@   serves C18 C08 C07
+//@   requires b != nil
+//@   ensures eof: old(DLen(*b)) == 0 ==> result1 == io.EOF && *b == old(*b)
+//@   ensures ok: old(DLen(*b)) > 0 ==> result1 == nil && result == old(DVal(*b))
+//@   ensures adv: old(DLen(*b)) > 0 ==> arr(*b) == old(arr(*b)) && off(*b) == old(off(*b)) + old(DLen(*b)) && len(*b) == old(len(*b)) - old(DLen(*b))
+//@   ensures bound: old(DLen(*b)) <= 9 && old(DLen(*b)) <= old(len(*b))
+//@   modifies *b
+//@   loop 1 unroll 9
+
+// decode(encode(v)) == v whatever follows; a strict prefix is incomplete (end of input)
+//@ lemma UvarRoundTrip(s []byte, v uint64)
+//@   serves C18
+//@   requires len(s) >= UvarLen(v)
+//@   requires UvarLen(v) > 0 ==> s[0] == UvarByte(v, 0)
+//@   requires UvarLen(v) > 1 ==> s[1] == UvarByte(v, 1)
+//@   requires UvarLen(v) > 2 ==> s[2] == UvarByte(v, 2)
+//@   requires UvarLen(v) > 3 ==> s[3] == UvarByte(v, 3)
+//@   requires UvarLen(v) > 4 ==> s[4] == UvarByte(v, 4)
+//@   requires UvarLen(v) > 5 ==> s[5] == UvarByte(v, 5)
+//@   requires UvarLen(v) > 6 ==> s[6] == UvarByte(v, 6)
+//@   requires UvarLen(v) > 7 ==> s[7] == UvarByte(v, 7)
+//@   requires UvarLen(v) > 8 ==> s[8] == UvarByte(v, 8)
+//@   ensures DLen(s) == UvarLen(v)
+//@   ensures DVal(s) == v
+//@ lemma UvarPrefixEOF(s []byte, v uint64)
+//@   serves C18 C08
+//@   requires len(s) < UvarLen(v)
+//@   requires len(s) > 0 ==> s[0] == UvarByte(v, 0)
+//@   requires len(s) > 1 ==> s[1] == UvarByte(v, 1)
+//@   requires len(s) > 2 ==> s[2] == UvarByte(v, 2)
+//@   requires len(s) > 3 ==> s[3] == UvarByte(v, 3)
+//@   requires len(s) > 4 ==> s[4] == UvarByte(v, 4)
+//@   requires len(s) > 5 ==> s[5] == UvarByte(v, 5)
+//@   requires len(s) > 6 ==> s[6] == UvarByte(v, 6)
+//@   requires len(s) > 7 ==> s[7] == UvarByte(v, 7)
+//@   requires len(s) > 8 ==> s[8] == UvarByte(v, 8)
+//@   ensures DLen(s) == 0
+//@ lemma UvarLenRange(v uint64)
+//@   serves C18
+//@   ensures 1 <= UvarLen(v) && UvarLen(v) <= 9
+
+// ---------------------------------------------------------------- size tables
+
+//@ fun SizeOfLZ(z int) int := z >= 57 ? 1 : (z >= 50 ? 2 : (z >= 43 ? 3 : (z >= 36 ? 4 : (z >= 29 ? 5 : (z >= 22 ? 6 : (z >= 15 ? 7 : (z >= 8 ? 8 : (9))))))))
+//@ globalinv forall i int :: 0 <= i && i <= 64 ==> uvarint64Sizes[i] == SizeOfLZ(i)
+//@ func initUvarint64Sizes
+//@   serves C18
+//@   ensures forall i int :: 0 <= i && i <= 64 ==> result[i] == SizeOfLZ(i)
+//@   loop 1 unroll 65
+//@ func Uvarint64Size
+//@   serves C18 C06
+//@   ensures result == UvarLen(v)
+
+// ---------------------------------------------------------------- zig-zag varint64
+//@ fun ZigZag(v int64) uint64 := uint64((v >> 63) ^ (v << 1))
+//@ fun UnZigZag(u uint64) int64 := int64((u >> 1) ^ (0 - (u & 1)))
+//@ lemma ZigZagInverse(v int64)
+//@   serves C18
+//@   ensures UnZigZag(ZigZag(v)) == v
+//@ func EncodeVarint64
+//@   serves C18 C06 C07
+//@   requires b != nil
+//@   ensures size: len(*b) == old(len(*b)) + UvarLen(ZigZag(v))
+//@   ensures prefix: forall j int :: 0 <= j && j < old(len(*b)) ==> (*b)[j] == old((*b)[j])
+//@   ensures byte0: UvarLen(ZigZag(v)) > 0 ==> (*b)[old(len(*b)) + 0] == UvarByte(ZigZag(v), 0)
+//@   ensures byte1: UvarLen(ZigZag(v)) > 1 ==> (*b)[old(len(*b)) + 1] == UvarByte(ZigZag(v), 1)
+//@   ensures byte2: UvarLen(ZigZag(v)) > 2 ==> (*b)[old(len(*b)) + 2] == UvarByte(ZigZag(v), 2)
+//@   ensures byte3: UvarLen(ZigZag(v)) > 3 ==> (*b)[old(len(*b)) + 3] == UvarByte(ZigZag(v), 3)
+//@   ensures byte4: UvarLen(ZigZag(v)) > 4 ==> (*b)[old(len(*b)) + 4] == UvarByte(ZigZag(v), 4)
+//@   ensures byte5: UvarLen(ZigZag(v)) > 5 ==> (*b)[old(len(*b)) + 5] == UvarByte(ZigZag(v), 5)
+//@   ensures byte6: UvarLen(ZigZag(v)) > 6 ==> (*b)[old(len(*b)) + 6] == UvarByte(ZigZag(v), 6)
+//@   ensures byte7: UvarLen(ZigZag(v)) > 7 ==> (*b)[old(len(*b)) + 7] == UvarByte(ZigZag(v), 7)
+//@   ensures byte8: UvarLen(ZigZag(v)) > 8 ==> (*b)[old(len(*b)) + 8] == UvarByte(ZigZag(v), 8)
+//@   ensures alias: arr(*b) == old(arr(*b)) || fresh(arr(*b))
+//@   modifies *b, arr(*b)
+//@ func DecodeVarint64
+//@   serves C18 C08 C07
+//@   requires b != nil
+//@   ensures eof: old(DLen(*b)) == 0 ==> result1 == io.EOF && *b == old(*b)
+//@   ensures ok: old(DLen(*b)) > 0 ==> result1 == nil && result == UnZigZag(old(DVal(*b)))
+//@   ensures adv: old(DLen(*b)) > 0 ==> arr(*b) == old(arr(*b)) && off(*b) == old(off(*b)) + old(DLen(*b)) && len(*b) == old(len(*b)) - old(DLen(*b))
+//@   ensures bound: old(DLen(*b)) <= 9 && old(DLen(*b)) <= old(len(*b))
+//@   modifies *b
+//@ func Varint64Size
+//@   serves C18 C06
+//@   ensures result == UvarLen(ZigZag(v))
+//@ func DecodeVarint32
+//@   serves C18 C08
+//@   requires b != nil
+//@   ensures eof: old(DLen(*b)) == 0 ==> result1 == io.EOF && *b == old(*b)
+//@   ensures range: old(DLen(*b)) > 0 ==> (result1 == nil <==> (UnZigZag(old(DVal(*b))) <= 2147483647 && UnZigZag(old(DVal(*b))) >= 0 - 2147483648))
+//@   ensures ok: old(DLen(*b)) > 0 && result1 == nil ==> int64(result) == UnZigZag(old(DVal(*b)))
+//@   ensures err: result1 != nil ==> (result1 == io.EOF || result1 == errVarint32Overflow) && int64(result) == 0
+//@   ensures adv: old(DLen(*b)) > 0 ==> arr(*b) == old(arr(*b)) && off(*b) == old(off(*b)) + old(DLen(*b)) && len(*b) == old(len(*b)) - old(DLen(*b))
+//@   modifies *b
+
+// ---------------------------------------------------------------- float64LE
+//@ func EncodeFloat64LE
+//@   serves C18 C19 C07
+//@   requires b != nil
+//@   ensures size: len(*b) == old(len(*b)) + 8
+//@   ensures prefix: forall j int :: 0 <= j && j < old(len(*b)) ==> (*b)[j] == old((*b)[j])
+//@   ensures byte0: (*b)[old(len(*b)) + 0] == byte(f64bits(v) >> 0)
+//@   ensures byte1: (*b)[old(len(*b)) + 1] == byte(f64bits(v) >> 8)
+//@   ensures byte2: (*b)[old(len(*b)) + 2] == byte(f64bits(v) >> 16)
+//@   ensures byte3: (*b)[old(len(*b)) + 3] == byte(f64bits(v) >> 24)
+//@   ensures byte4: (*b)[old(len(*b)) + 4] == byte(f64bits(v) >> 32)
+//@   ensures byte5: (*b)[old(len(*b)) + 5] == byte(f64bits(v) >> 40)
+//@   ensures byte6: (*b)[old(len(*b)) + 6] == byte(f64bits(v) >> 48)
+//@   ensures byte7: (*b)[old(len(*b)) + 7] == byte(f64bits(v) >> 56)
+//@   ensures alias: arr(*b) == old(arr(*b)) || fresh(arr(*b))
+//@   modifies *b, arr(*b)
+//@ fun LE64(s []byte) uint64 := uint64(s[0]) | uint64(s[1]) << 8 | uint64(s[2]) << 16 | uint64(s[3]) << 24 | uint64(s[4]) << 32 | uint64(s[5]) << 40 | uint64(s[6]) << 48 | uint64(s[7]) << 56
+//@ func DecodeFloat64LE
+//@   serves C18 C19 C08 C07
+//@   requires b != nil
+//@   ensures eof: old(len(*b)) < 8 ==> result1 == io.EOF && *b == old(*b)
+//@   ensures ok: old(len(*b)) >= 8 ==> result1 == nil && same(result, frombits(old(LE64(*b))))
+//@   ensures adv: old(len(*b)) >= 8 ==> arr(*b) == old(arr(*b)) && off(*b) == old(off(*b)) + 8 && len(*b) == old(len(*b)) - 8
+//@   modifies *b
+// bit-exact round trip for every float64 that is not a NaN (NaN payloads are not observable through float64 values)
+//@ lemma Float64LERoundTrip(s []byte, v float64)
+//@   serves C18 C19
+//@   requires len(s) >= 8
+//@   requires s[0] == byte(f64bits(v) >> 0)
+//@   requires s[1] == byte(f64bits(v) >> 8)
+//@   requires s[2] == byte(f64bits(v) >> 16)
+//@   requires s[3] == byte(f64bits(v) >> 24)
+//@   requires s[4] == byte(f64bits(v) >> 32)
+//@   requires s[5] == byte(f64bits(v) >> 40)
+//@   requires s[6] == byte(f64bits(v) >> 48)
+//@   requires s[7] == byte(f64bits(v) >> 56)
+//@   ensures same(frombits(LE64(s)), v)
+
+// ---------------------------------------------------------------- varfloat64
+// bits of v+1 minus bits of 1.0, rotated left by 6, emitted 7 bits at a time starting with the most significant
+//@ fun VfX(v float64) uint64 := rotl(f64bits(v + 1.0) - 0x3FF0000000000000, 6)
+//@ fun VfLen(x uint64) int := (x << 7) == 0 ? 1 : ((x << 14) == 0 ? 2 : ((x << 21) == 0 ? 3 : ((x << 28) == 0 ? 4 : ((x << 35) == 0 ? 5 : ((x << 42) == 0 ? 6 : ((x << 49) == 0 ? 7 : ((x << 56) == 0 ? 8 : (9))))))))
+//@ fun VfByte(x uint64, i int) byte := i == 8 ? byte(x) : (i + 1 < VfLen(x) ? (byte((x << (7*i)) >> 57) | 0x80) : byte((x << (7*i)) >> 57))
+//@ fun VGrp(s []byte, i int) uint64 := uint64(s[i] & 0x7F) << (57 - 7*i)
+//@ fun VLast(s []byte, i int) uint64 := i == 8 ? uint64(s[8]) : uint64(s[i]) << (57 - 7*i)
+//@ fun VDX(s []byte) uint64 := DLen(s) == 1 ? (VLast(s,0)) : (DLen(s) == 2 ? (VGrp(s,0) | VLast(s,1)) : (DLen(s) == 3 ? (VGrp(s,0) | VGrp(s,1) | VLast(s,2)) : (DLen(s) == 4 ? (VGrp(s,0) | VGrp(s,1) | VGrp(s,2) | VLast(s,3)) : (DLen(s) == 5 ? (VGrp(s,0) | VGrp(s,1) | VGrp(s,2) | VGrp(s,3) | VLast(s,4)) : (DLen(s) == 6 ? (VGrp(s,0) | VGrp(s,1) | VGrp(s,2) | VGrp(s,3) | VGrp(s,4) | VLast(s,5)) : (DLen(s) == 7 ? (VGrp(s,0) | VGrp(s,1) | VGrp(s,2) | VGrp(s,3) | VGrp(s,4) | VGrp(s,5) | VLast(s,6)) : (DLen(s) == 8 ? (VGrp(s,0) | VGrp(s,1) | VGrp(s,2) | VGrp(s,3) | VGrp(s,4) | VGrp(s,5) | VGrp(s,6) | VLast(s,7)) : (VGrp(s,0) | VGrp(s,1) | VGrp(s,2) | VGrp(s,3) | VGrp(s,4) | VGrp(s,5) | VGrp(s,6) | VGrp(s,7) | VLast(s,8)))))))))
+//@ fun VfDecode(x uint64) float64 := frombits(rotr(x, 6) + 0x3FF0000000000000) - 1.0
+//@ func EncodeVarfloat64
+//@   serves C18 C06 C07
+//@   requires b != nil
+//@   ensures size: len(*b) == old(len(*b)) + VfLen(VfX(v))
+//@   ensures prefix: forall j int :: 0 <= j && j < old(len(*b)) ==> (*b)[j] == old((*b)[j])
+//@   ensures byte0: VfLen(VfX(v)) > 0 ==> (*b)[old(len(*b)) + 0] == VfByte(VfX(v), 0)
+//@   ensures byte1: VfLen(VfX(v)) > 1 ==> (*b)[old(len(*b)) + 1] == VfByte(VfX(v), 1)
+//@   ensures byte2: VfLen(VfX(v)) > 2 ==> (*b)[old(len(*b)) + 2] == VfByte(VfX(v), 2)
+//@   ensures byte3: VfLen(VfX(v)) > 3 ==> (*b)[old(len(*b)) + 3] == VfByte(VfX(v), 3)
+//@   ensures byte4: VfLen(VfX(v)) > 4 ==> (*b)[old(len(*b)) + 4] == VfByte(VfX(v), 4)
+//@   ensures byte5: VfLen(VfX(v)) > 5 ==> (*b)[old(len(*b)) + 5] == VfByte(VfX(v), 5)
+//@   ensures byte6: VfLen(VfX(v)) > 6 ==> (*b)[old(len(*b)) + 6] == VfByte(VfX(v), 6)
+//@   ensures byte7: VfLen(VfX(v)) > 7 ==> (*b)[old(len(*b)) + 7] == VfByte(VfX(v), 7)
+//@   ensures byte8: VfLen(VfX(v)) > 8 ==> (*b)[old(len(*b)) + 8] == VfByte(VfX(v), 8)
+//@   ensures alias: arr(*b) == old(arr(*b)) || fresh(arr(*b))
+//@   modifies *b, arr(*b)
+//@   loop 1 unroll 8
+//@ func DecodeVarfloat64
+//@   serves C18 C08 C07
+//@   requires b != nil
+//@   ensures eof: old(DLen(*b)) == 0 ==> result1 == io.EOF && *b == old(*b)
+//@   ensures ok: old(DLen(*b)) > 0 ==> result1 == nil && same(result, VfDecode(old(VDX(*b))))
+//@   ensures adv: old(DLen(*b)) > 0 ==> arr(*b) == old(arr(*b)) && off(*b) == old(off(*b)) + old(DLen(*b)) && len(*b) == old(len(*b)) - old(DLen(*b))
+//@   ensures bound: old(DLen(*b)) <= 9 && old(DLen(*b)) <= old(len(*b))
+//@   modifies *b
+//@   loop 1 unroll 9
+//@ lemma VarfloatRoundTripBits(s []byte, x uint64)
+//@   serves C18
+//@   requires len(s) >= VfLen(x)
+//@   requires VfLen(x) > 0 ==> s[0] == VfByte(x, 0)
+//@   requires VfLen(x) > 1 ==> s[1] == VfByte(x, 1)
+//@   requires VfLen(x) > 2 ==> s[2] == VfByte(x, 2)
+//@   requires VfLen(x) > 3 ==> s[3] == VfByte(x, 3)
+//@   requires VfLen(x) > 4 ==> s[4] == VfByte(x, 4)
+//@   requires VfLen(x) > 5 ==> s[5] == VfByte(x, 5)
+//@   requires VfLen(x) > 6 ==> s[6] == VfByte(x, 6)
+//@   requires VfLen(x) > 7 ==> s[7] == VfByte(x, 7)
+//@   requires VfLen(x) > 8 ==> s[8] == VfByte(x, 8)
+//@   ensures DLen(s) == VfLen(x)
+//@   ensures VDX(s) == x
+//@ lemma VarfloatPrefixEOF(s []byte, x uint64)
+//@   serves C18 C08
+//@   requires len(s) < VfLen(x)
+//@   requires len(s) > 0 ==> s[0] == VfByte(x, 0)
+//@   requires len(s) > 1 ==> s[1] == VfByte(x, 1)
+//@   requires len(s) > 2 ==> s[2] == VfByte(x, 2)
+//@   requires len(s) > 3 ==> s[3] == VfByte(x, 3)
+//@   requires len(s) > 4 ==> s[4] == VfByte(x, 4)
+//@   requires len(s) > 5 ==> s[5] == VfByte(x, 5)
+//@   requires len(s) > 6 ==> s[6] == VfByte(x, 6)
+//@   requires len(s) > 7 ==> s[7] == VfByte(x, 7)
+//@   requires len(s) > 8 ==> s[8] == VfByte(x, 8)
+//@   ensures DLen(s) == 0
+// decoding the encoded bits gives (v+1)-1 in IEEE arithmetic ...
+//@ lemma VarfloatDecodeOfEncode(v float64)
+//@   serves C18
+//@   ensures same(VfDecode(VfX(v)), (v + 1.0) - 1.0)
+// ... which is v itself for every integer 0 <= v < 2^53
+//@ lemma VarfloatExactOnIntegers(v float64)
+//@   serves C18 C06
+//@   requires v >= 0.0 && v < 9007199254740992.0 && same(rti(v), v)
+//@   ensures (v + 1.0) - 1.0 == v
+//@ lemma VfLenRange(x uint64)
+//@   serves C18
+//@   ensures 1 <= VfLen(x) && VfLen(x) <= 9
+
+//@ fun SizeOfTZ(z int) int := z >= 57 ? 1 : (z >= 50 ? 2 : (z >= 43 ? 3 : (z >= 36 ? 4 : (z >= 29 ? 5 : (z >= 22 ? 6 : (z >= 15 ? 7 : (z >= 8 ? 8 : (9))))))))
+//@ globalinv forall i int :: 0 <= i && i <= 64 ==> varfloat64Sizes[i] == SizeOfTZ(i)
+//@ func initVarfloat64Sizes
+//@   serves C18
+//@   ensures forall i int :: 0 <= i && i <= 64 ==> result[i] == SizeOfTZ(i)
+//@   loop 1 unroll 65
+//@ func Varfloat64Size
+//@   serves C18 C06
+//@   ensures result == VfLen(VfX(v))
+
